@@ -2,28 +2,36 @@
 (* The contract layer: for every call of the single-arena families, the set of
    admitted outcomes, the named deviations (known findings) and the judge that
    attributes a non-conforming observation to the properties it violates. *)
-EXTENDS StrCopy
+EXTENDS StrCopy, MemOps
 
 Outcomes(e) ==
   CASE e.fn \in StrCopyFns \ FldFns -> StrCopyOutcomes(e)
+    [] e.fn \in MemOpsFns -> MemOpsOutcomes(e)
     [] OTHER -> {}
 
 Deviations(e) ==
   CASE e.fn \in StrCopyFns \ FldFns -> StrCopyDeviations(e)
+    [] e.fn \in MemOpsFns -> MemOpsDeviations(e)
     [] OTHER -> {}
 
-Known(e) == e.fn \in (StrCopyFns \ FldFns)
+Known(e) == e.fn \in (StrCopyFns \ FldFns) \cup MemOpsFns
 
 (* functional property of the family the function belongs to *)
 Func(fn) == "C06"
 
 ProducesString(fn) == fn \in (StrCopyFns \ {"strcpyfld_s", "strcpyfldin_s"})
+InPlaceString(fn) == fn \in StrFillFns      \* transforms of an existing string: the terminator must survive
+CopyLike(fn) == fn \in StrCopyFns \cup MemCpyFns \cup MemMoveFns \cup {"memccpy_s"}
 NoOpByDoc(e) == \/ (e.fn \in {"strcpy_s", "wcscpy_s"} /\ e.d = e.s)
-                \/ (e.fn \in StpFns /\ e.flags = 1)   \* null status out-parameter: nothing is attempted (DESIGN 5a.13)
+                \/ (e.fn \in StpFns /\ e.flags = 1)
+                \/ (e.fn \in MemCpyFns \cup MemMoveFns /\ e.slen = 0)     \* documented: returns EOK at once
+                \/ (e.fn \in MemSetFns /\ e.n = 0 /\ e.d # NULLP)   \* null status out-parameter: nothing is attempted (DESIGN 5a.13)
 
 C03_Direct(e) ==
-  (ProducesString(e.fn) /\ DestUsable(e) /\ ~NoOpByDoc(e) /\ e.fault = "none")
-     => \E i \in Rng(e.d, e.dmax) : e.post[i] = 0
+  /\ (ProducesString(e.fn) /\ DestUsable(e) /\ ~NoOpByDoc(e) /\ e.fault = "none")
+        => \E i \in Rng(e.d, e.dmax) : e.post[i] = 0
+  /\ (InPlaceString(e.fn) /\ DestUsable(e) /\ e.fault = "none" /\ \E i \in Rng(e.d, e.dmax) : e.pre[i] = 0)
+        => \E i \in Rng(e.d, e.dmax) : e.post[i] = 0
 
 Score(e, o) == Cardinality(MisCells(e, o)) + (IF HOK(e, o) THEN 0 ELSE 1) + (IF RetOK(e, o) THEN 0 ELSE 1)
 CellTags(e, o) == UNION {o.mem[i].p : i \in MisCells(e, o)}
